@@ -24,7 +24,7 @@ RULE = (
     "(I,T,I); each history is replayed on a real network and integrate's full output matrix is compared with the request-log reference; "
     "a state is the canonical (recordings, externals) of the module; plus step_current vs its sample-wise definition on dyadic grids"
 )
-REQUIRED_COVER = ["edge_index_ne_rank_within_type", "two_stimuli_one_compartment", "compartments_with_different_area", "tmax_longer",
+REQUIRED_COVER = ["stored_and_data_inputs_mixed", "edge_index_ne_rank_within_type", "two_stimuli_one_compartment", "compartments_with_different_area", "tmax_longer",
                   "tmax_shorter", "data_fed", "duplicate_record_dropped", "clamp_gate", "clamp_synaptic_state", "record_synaptic_state",
                   "record_channel_current", "step_current"]
 ASSUMPTIONS = [
@@ -283,8 +283,14 @@ def run_history(order, hist, tmax_mode="none", data=False, backend="jaxley.stone
 
     data_acc = {} if data else None
     try:
+        n_inputs = 0
         for req in hist:
-            _apply(net, req, data_acc)
+            if data == "mixed" and req["op"] in ("stim", "clamp"):
+                # first input request stored on the module, the next one fed at integrate time, and so on
+                _apply(net, req, data_acc if n_inputs % 2 == 1 else None)
+                n_inputs += 1
+            else:
+                _apply(net, req, data_acc)
         # every history ends with the same suffix request: record v everywhere (keeps integrate callable; exercises dedup)
         net.record("v", verbose=False)
     except Exception as e:
@@ -350,6 +356,8 @@ def run_history(order, hist, tmax_mode="none", data=False, backend="jaxley.stone
         out["cover"].append("tmax_shorter")
     if data and data_acc:
         out["cover"].append("data_fed")
+    if data == "mixed" and data_acc and any(k != "i" or True for k in net.externals):
+        out["cover"].append("stored_and_data_inputs_mixed")
     nreq_rows = sum(len(VIEWS[r["view"]]) if not r["view"].startswith("E") else 1 for r in full if r["op"] == "record")
     if nreq_rows > len(rows):
         out["cover"].append("duplicate_record_dropped")
@@ -422,6 +430,11 @@ def explore(ctx):
             h = [REQUESTS[i] for i in hist]
             data = (sum(hist) % 2 == 1) and any(r["op"] in ("stim", "clamp") for r in h)
             runs.append({"order": "ITI", "history": h, "tmax": "none", "data": data, "backend": "jaxley.stone"})
+    # stored + data-fed inputs in one call: every ordered pair of input requests, first stored, second data-fed
+    inputs = [r for r in REQUESTS if r["op"] in ("stim", "clamp")]
+    for a in inputs:
+        for b in inputs:
+            runs.append({"order": "ITI", "history": [a, b], "tmax": "none", "data": "mixed", "backend": "jaxley.stone"})
     ctx.note("alphabet", len(REQUESTS))
     ctx.note("depth", depth)
     ctx.note("runs", len(runs))
